@@ -17,7 +17,8 @@ META = {
             "string classes) and EVERY finished behaviour TLC generates is executed on the real ByteArraysBuilder, "
             "Uint64MapBuilder (all layouts bucketBits 1..4 x tagBits {0,2}), StringTableBuilder and integer coders; what is "
             "read back (Item, FindFirst, FindFirstWithTag, FillTagged, Begin/Next, EachItem with 1..4 goroutines) is "
-            "compared with the abstract store.",
+            "compared with the abstract store; maps of thousands of entries over 2-8 buckets written by 4-16 goroutines "
+            "concurrently must read back as the store whatever the interleaving.",
     "note": "Weakest fit of the family (DESIGN section 7): the spec contributes the structure of the input space (orders, key "
             "configurations, value classes) and the oracle 'same as the abstract store'; byte equality is judged in Go. "
             "Small scope: <= 5 entries, item sizes from 7 classes (0,1,3,4,251,252,65280 bytes: totals cross the 1->2->3 "
@@ -159,6 +160,12 @@ def run(ctx):
     ctx.sample({"adapter": "map", "case": cases[len(cases) // 2]})
     ctx.sample({"adapter": "map", "case": cases[7]})
     harness_errors += register(ctx, ctx.run_cases(binary, "map", cases, name="map", timeout_ms=60000), cases)
+
+    # the builder is written by several goroutines at once in the compact build: many entries over few buckets,
+    # written concurrently, must give the same map as the abstract store whatever the interleaving
+    ccases = [{"id": i, "b": b, "t": t, "n": n, "g": g}
+              for i, (b, t, n, g) in enumerate([(1, 0, 4000, 8), (1, 2, 4000, 8), (2, 2, 6000, 16), (3, 0, 3000, 4)] * ctx.pick(2, 10))]
+    harness_errors += register(ctx, ctx.run_cases(binary, "mapconc", ccases, name="mapconc", timeout_ms=120000), ccases)
 
     ctx.traces_validated = len(hist) + len(seqs) + len(strs)
     ctx.extra_cov["behaviours_kv"] = len(hist)
